@@ -287,6 +287,8 @@ def discharge(ex, ops, outs, obligations, assumptions, obligations_fn=None, seed
         if r != 'sat':
             status, detail = 'undecided', 'vacuity witness not satisfiable (%s): family may be vacuous' % r
     res['stats'] = st.as_dict()
+    if st.cvc5_disagree and status == 'ok':
+        status, detail = 'undecided', 'cvc5 disagrees with z3 on %d sampled query(ies)' % st.cvc5_disagree
     fo = [o for o in outs if o is not None]
     res['sample'] = {'ops': [str(op)[:120] for op in ops[:4]], 'last_output_term': str(fo[-1][0])[:240] if fo else '',
                      'obligation': obligations[-1].label if obligations else ''}
